@@ -13,7 +13,7 @@ request
 {"op":"search","spec":false,
  "hits":[{"seg":0,"pos":3,"score":1069547520,"flds":[5,null],"grp":2,"resc":null|"rej"|<bits>}, …],
  "plan":[{"f":"score"|<field index>,"desc":true}, …],
- "limit":3,"cand":null,"return_hits":true,"explain":false,"profile":false,"nseg":2,
+ "limit":3,"cand":null,"return_hits":true,"explain":false,"profile":false,"hook":false,"nseg":2,
  "cursor":null|{"pos":4,"score":<bits>,"returned":3},
  "rescore":null|{"window":5,"mode":"total"},
  "collapse":null|{"inner":null|{"plan":[…],"from":0,"size":3|null}},
@@ -37,6 +37,7 @@ def f32Ops : ScoreOps UInt32 where
   lt a b := ordKey a < ordKey b
   add a b := (Float32.ofBits a + Float32.ofBits b).toBits
   mul a b := (Float32.ofBits a * Float32.ofBits b).toBits
+  zero := 0
 
 def parseMode (s : String) : Except String Mode :=
   match s with
@@ -111,6 +112,7 @@ def parseReq (req : Json) (hits : List (Hit UInt32)) : Except String (Req UInt32
         pure (some ({ inner := some (ip, { from_ := from_, size := size }) } : CollapseReq))
   return { plan := plan, limit := limit, cand := cand, returnHits := getBoolD req "return_hits" true,
            explain := getBoolD req "explain" false, profile := getBoolD req "profile" false,
+           hook := getBoolD req "hook" false,
            nseg := getNatD req "nseg" 1, cursor := cursor, rescore := rescore, collapse := collapse,
            aggField := getNatD req "agg_field" 0 }
 
